@@ -101,7 +101,7 @@ def run(ctx):
         jobs.append(("MCAttrs(mode lattice 0..07777 x all fchown/fchmod outcomes x keep x force)", True,
                      pool.submit(tlc.run, "MCAttrs", cfg=_cfg(ctx, "mcam.cfg", big), workers=W, timeout=1500)))
     jobs.append(("MCArgs(6 program names x <=1 token in XZ_DEFAULTS, XZ_OPT x <=2 on the command line)", True,
-                 pool.submit(tlc.run, "MCArgs", workers=2, timeout=900)))
+                 pool.submit(tlc.run, "MCArgs", workers=2 if q else 4, timeout=900)))
     jobs.append(("MCExitStatus(<=6 messages)", True, pool.submit(tlc.run, "MCExitStatus", workers=1, timeout=300)))
 
     # ------------------------------------------------------------------ (R) names
@@ -157,8 +157,7 @@ def run(ctx):
     preds = {p["id"]: p for p in plans_from_tlc(ga.out)}
     if len(preds) != len(sc):
         raise MachineryError("GenAttrs predicted %d of %d scenarios\n%s" % (len(preds), len(sc), ga.out[-1500:]))
-    payloads = {"xz": U.run([xz, "-0", "-c"], input=c19_files.PLAIN).stdout,
-                "lzma": U.run([xz, "-0", "-c", "-F", "lzma"], input=c19_files.PLAIN).stdout}
+    payloads = {(f, t): U.run([xz, "-0", "-c", "-F", f], input=pl).stdout for f in ("xz", "lzma") for t, pl in c19_files.PLAINS.items()}
     def one(i):
         c19_files.run_scenario(ctx, bins, sc[i], preds[sc[i]["id"]], payloads, i)
     with cf.ThreadPoolExecutor(4) as ex2:
